@@ -11,6 +11,38 @@ def _num(pat, text, what):
     return int(m.group(1))
 
 
+def _impl_block(src, header):
+    """text of `impl <header> {...}` (brace matched), whitespace removed; None if absent or not unique"""
+    ms = list(re.finditer(r"\bimpl\s+" + header + r"\s*\{", src))
+    if len(ms) != 1:
+        return None
+    i = ms[0].end() - 1
+    depth = 0
+    for j in range(i, len(src)):
+        if src[j] == "{":
+            depth += 1
+        elif src[j] == "}":
+            depth -= 1
+            if depth == 0:
+                return re.sub(r"\s+", "", re.sub(r"//[^\n]*", "", src[i : j + 1]))
+    return None
+
+
+def real_order_exact():
+    """src/real.rs: Ord for Real is exactly the order of the inner f64 through partial_cmp (panic on NaN), PartialOrd
+    delegates to it, PartialEq is derived on the one-field struct; no tolerance anywhere.  Fails closed."""
+    src = read("src/real.rs")
+    o = _impl_block(src, r"Ord\s+for\s+Real")
+    po = _impl_block(src, r"PartialOrd\s+for\s+Real")
+    return (
+        o == '{fncmp(&self,other:&Real)->Ordering{self.0.partial_cmp(&other.0).expect("cannotcomparewithNaN")}}'
+        and po == "{fnpartial_cmp(&self,other:&Real)->Option<Ordering>{Some(self.cmp(other))}}"
+        and re.search(r"#\[derive\(PartialEq,\s*Copy,\s*Clone,\s*Default\)\]\s*pub\s+struct\s+Real\(f64\);", src) is not None
+        and re.search(r"impl\s+PartialEq\b[^{]*\bfor\s+Real\b", src) is None
+        and _impl_block(src, r"Eq\s+for\s+Real") == "{}"
+    )
+
+
 # ------------------------------------------------- C12: literals of greedy.rs and kk.rs
 def gen_greedy_kk():
     out = HEADER.format(src="src/algorithms/greedy.rs, src/algorithms/kk.rs")
@@ -54,6 +86,8 @@ def gen_greedy_kk():
     out += "Definition kk_copy_part : bool := %s.\n" % coq_bool(
         re.search(r"parts\[b\]\s*=\s*parts\[a\]", bk) is not None
         and re.search(r"parts\[w\.1\]\s*=\s*i", bk) is not None)
+    # coupe::Real, the Ord float wrapper these algorithms accept as a weight type
+    out += "Definition real_order_exact : bool := %s.\n" % coq_bool(real_order_exact())
     return out
 
 
@@ -73,7 +107,12 @@ PROP = dict(
          "integers; plus a REUSE stream (about a third of the cases): one Greedy / KarmarkarKarp VALUE serves a sequence of "
          "2-4 calls (fewer weights than parts first, then more; other lengths; the previous output, resized with garbage, "
          "as the dirty buffer; i64 or f64 weights), each call being a case judged by the checker and compared with the model "
-         "run on that call's input with the ORIGINAL part count; plus a GENUINE-f64 stream (1 unit in 5, Greedy only): "
+         "run on that call's input with the ORIGINAL part count; plus a SCALE family (1 unit in 6): the integer families times 2^s, s in {subnormal -1070..-1064, "
+         "-1000, -300, -70, -53, -52, -10, 0, 10, 52, 300, 900} -- every value, sum and difference exact, so the integer model "
+         "must be matched partition for partition -- through coupe::Real (KarmarkarKarp, Greedy) and plain f64 (Greedy, both "
+         "types on every Greedy case); 1 in 8 of them with a scale that is not a power of two (1e-21, 1e-300): Greedy compared "
+         "with the binary64 model, KarmarkarKarp judged by the checker only (exact arithmetic, gap <= max + total/2^45); "
+         "plus a GENUINE-f64 stream (1 unit in 5, Greedy only): "
          "tenths, thirds, mixed magnitudes 1e-12..1e12, random mantissas, ties between rounded sums (0.1+0.2 vs 0.3), one "
          "dominant 1e15, subnormals, and a negative / -0.0 family (outside the contract), passed as bit patterns and "
          "compared bit-for-bit with the binary64 (SpecFloat) instance of the generic model, judged by replaying LPT in "
@@ -85,6 +124,7 @@ PROP = dict(
                  6: "Ok (k-way KK: loads compared; partition differs)",
                  7: "Ok (k-way KK, more than 20 parts: checker only; partition identical)",
                  8: "Ok (k-way KK, more than 20 parts: checker only; partition differs)",
+                 10: "Ok (KarmarkarKarp through coupe::Real, inexactly scaled weights: checker only, exact arithmetic with tolerance)",
                  9: "Ok (Greedy, genuine f64 weights: compared bit-for-bit, LPT replayed in rounded arithmetic)"},
     trusted_base=[
         "axioms: none (every theorem of Properties/C12.v is closed under the global context)",
@@ -124,7 +164,7 @@ MANIFEST = dict(
          "for Z and for binary64 (order laws proved for SpecFloat; closure of + as a premise); genuine f64 inputs are "
          "compared bit-for-bit with the SpecFloat instance.",
     design_ref="DESIGN.md §7 C12",
-    note="Trusted: Coq kernel; model<->code tie = translator (12 literals) + differential runs (5k/30k cases, i64 and f64); "
+    note="Trusted: Coq kernel; model<->code tie = translator (13 literals, incl. the order of coupe::Real in src/real.rs) + differential runs (5k/30k cases, i64 and f64); "
          "BinaryHeap/sort/min_by library contracts as listed; no axioms.",
     technique="Coq proof (potential-function invariants over the differencing steps and their back-tracking; permutation "
               "invariance of LPT) + translator + model/implementation correspondence + certified checkers",
